@@ -185,6 +185,12 @@ func hereParts(s string) ast.Word {
 			flush()
 			w = append(w, wPE("v"))
 			i += 2
+		case strings.HasPrefix(s[i:], "$(c >f)"):
+			flush()
+			c := simpleCmd("c")
+			c.Redirs = []*ast.Redir{{Op: ">", Word: ast.Word{wLit("f")}}}
+			w = append(w, wCS(true, c))
+			i += 7
 		case strings.HasPrefix(s[i:], "$(c)"):
 			flush()
 			w = append(w, wCS(true, simpleCmd("c")))
